@@ -285,6 +285,21 @@ Definition range_elem_s (t : sty) : option sty :=
   | _ => None
   end.
 
+(* the grammar  range_args = expr [ expr [ expr ] ]  and the numeric form
+   "for x := range 1 10 2 // from to step": one operand (a num to count to, or
+   a string / array / map to iterate), or two or three operands that are all num *)
+Inductive RangeOperands : list sty -> Prop :=
+| Ro_one t s : range_elem_s t = Some s -> RangeOperands [t]
+| Ro_two : RangeOperands [SNum; SNum]
+| Ro_three : RangeOperands [SNum; SNum; SNum].
+
+Definition range_operands_s (ts : list sty) : bool :=
+  match ts with
+  | [t] => match range_elem_s t with Some _ => true | None => false end
+  | [SNum; SNum] | [SNum; SNum; SNum] => true
+  | _ => false
+  end.
+
 Definition kjoin (a b : kind) : kind := match a, b with KConst, KConst => KConst | _, _ => KVar end.
 
 Fixpoint all_some {A} (l : list (option A)) : option (list A) :=
@@ -417,6 +432,17 @@ Definition spec_check (c : ctx) (e : expr) : sresult :=
       | None => SReject
       end
   | CAssignCall _ => SReject
+  | CRangeMore rest =>
+      match all_some (map spec_tc (e :: rest)) with
+      | Some vs =>
+          if range_operands_s (map snd vs) then
+            match vs with
+            | [(_, t)] => match range_elem_s t with Some s => SAccept s s | None => SReject end
+            | _ => SAccept SNum SNum
+            end
+          else SReject
+      | None => SReject
+      end
   | CCond => match v with Some (_, SBool) => SAccept SBool SBool | _ => SReject end
   | CRange =>
       match v with
